@@ -17,7 +17,9 @@ Sidecar syntax (one file per source file, name <file>.contract):
   @before <fnpath> /regex/ [count]  whole lines before the line containing the match
   @after <fnpath> /regex/ [count]   whole lines after the statement containing the match
   @inline <fnpath> /regex/ [count]  text (joined on one line) directly before the match
+  @inline-after <fnpath> /regex/ [count]  text (joined on one line) directly after the match
   @body-start <fnpath>              whole lines directly after the opening brace line of the fn
+  @loop-body <fnpath> <kind>#<n>    whole lines directly after the opening brace line of the loop body
 
 A content line may end with `//@ <obligation-id> [C01,C02]`: that line and the following lines of the
 block (until the next tag) belong to the named obligation.
@@ -144,15 +146,31 @@ def plan_insertions(src, blocks):
                 ins.append((ls, 'lines', b))
             else:
                 ins.append((pos, 'inline', b))
-        elif d in ('before', 'after', 'inline'):
+        elif d in ('before', 'after', 'inline', 'inline-after'):
             fnpath, rx, count = split_regex_args(b.args)
             for (a, e) in src.find_stmt(fnpath, rx, count):
                 if d == 'before':
                     ins.append((line_start(text, a), 'lines', b))
                 elif d == 'after':
                     ins.append((src.stmt_end(line_start(text, a)), 'lines', b))
+                elif d == 'inline-after':
+                    ins.append((e, 'inline', b))
                 else:
                     ins.append((a, 'inline', b))
+        elif d == 'loop-body':
+            fnpath, spec = b.args.split()
+            pos = src.find_loop(fnpath, spec)
+            k, par = pos, 0
+            while k < len(src.m):
+                ch = src.m[k]
+                if ch in '([':
+                    par += 1
+                elif ch in ')]':
+                    par -= 1
+                elif ch == '{' and par == 0:
+                    break
+                k += 1
+            ins.append((line_end(text, k), 'lines', b))
         elif d == 'body-start':
             _, op, _ = src.find_fn(b.args.split()[0])
             ins.append((line_end(text, op), 'lines', b))
@@ -189,7 +207,7 @@ def weave_text(text, ins):
             for b in by_pos_inline[p]:
                 seg += line[col:p - pos]
                 col = p - pos
-                t = ' '.join(x.strip() for x in b.lines if not x.strip().startswith('//@')) + ' '
+                t = ' ' + ' '.join(re.sub(r'\s*//@.*$', '', x.strip()) for x in b.lines if not x.strip().startswith('//@')) + ' '
                 c0 = len(seg)
                 seg += t
                 inl.append((c0 + 1, len(seg) + 1, b.bid))
